@@ -17,7 +17,8 @@ Mirrors, step for step:
   members of undecorated subclasses in front of it are not visited
   (`Tbl.code`); `Tbl.full` is the table the property text asks for.
 * `invalidate_attrs` (utils/mutation.py): `invalidate`, with the `_visited`
-  set threaded through the "nothing to delete" branch and a fresh one for every
+  set threaded through the "nothing to delete" branch (members of it are skipped
+  before `delattr` is tried) and a fresh one for every
   successful `delattr` (which re-enters through `__delattr__`/`mutate_attr`).
 * `mutate_attr` (type check, raw write, invalidation), `__setattr__`,
   `__delattr__` (reset to the default through `mutate_attr`, or raw delete +
@@ -133,10 +134,13 @@ def depList (R : RTbl V) (a : Name) : List Name :=
 
 abbrev InvRes (V : Type) := Option (List Name × Dict V)
 
-/-- One iteration of the loop of `invalidate_attrs`: `delattr(obj, d)`.
+/-- One iteration of the loop of `invalidate_attrs`. A dependant that is already in `_visited`
+(the attribute whose mutation started the call, or anything found to hold no value) is skipped
+BEFORE `delattr` is tried (fix 0ce7c4e); otherwise `delattr(obj, d)`.
 `rec` is `invalidate_attrs` itself (one unit of fuel less). -/
 def invStep (R : RTbl V) (rec : Name → List Name → Dict V → InvRes V)
     (d : Name) (acc : List Name × Dict V) : InvRes V :=
+  if d ∈ acc.1 then some acc else
   match dfltOf R d with
   | some v =>
     -- `__delattr__`: managed with a default => `mutate_attr(d, default)` => write, then invalidate (new `_visited`)
@@ -145,9 +149,6 @@ def invStep (R : RTbl V) (rec : Name → List Name → Dict V → InvRes V)
     if (acc.2 d).isSome then
       -- raw delete succeeded; `__delattr__` then calls `invalidate_attrs(self, d)` (new `_visited`)
       (rec d [d] (derase acc.2 d)).map (fun r => (acc.1, r.2))
-    else if d ∈ acc.1 then
-      -- AttributeError and already visited
-      some acc
     else
       -- AttributeError: nothing to delete, but dependants of `d` may be stale
       rec d (d :: acc.1) acc.2
